@@ -44,12 +44,12 @@ SEEDS = [
 ]
 
 # fixed alphabet of op kinds (weights are drawn per run = swarm testing)
-KINDS = ['obs', 'add_atom', 'add_bond', 'del_atom', 'del_bond', 'remap', 'union', 'copy', 'sub', 'drop', 'flush',
+KINDS = ['set_xy', 'obs', 'add_atom', 'add_bond', 'del_atom', 'del_bond', 'remap', 'union', 'copy', 'sub', 'drop', 'flush',
          'tx', 'clean_stereo', 'add_atom_stereo', 'add_ct_stereo', 'invalid', 'new', 'opaque']
-BASE_W = {'obs': 10, 'add_atom': 9, 'add_bond': 12, 'del_atom': 8, 'del_bond': 9, 'remap': 5, 'union': 4, 'copy': 5,
+BASE_W = {'set_xy': 3, 'obs': 10, 'add_atom': 9, 'add_bond': 12, 'del_atom': 8, 'del_bond': 9, 'remap': 5, 'union': 4, 'copy': 5,
           'sub': 5, 'drop': 1, 'flush': 1, 'tx': 12, 'clean_stereo': 1, 'add_atom_stereo': 3, 'add_ct_stereo': 3,
           'invalid': 3, 'new': 2, 'opaque': 5}
-MUTATORS = {'add_atom', 'add_bond', 'del_atom', 'del_bond', 'remap', 'union', 'tx', 'clean_stereo',
+MUTATORS = {'set_xy', 'add_atom', 'add_bond', 'del_atom', 'del_bond', 'remap', 'union', 'tx', 'clean_stereo',
             'add_atom_stereo', 'add_ct_stereo', 'invalid', 'opaque'}
 OPAQUE = ['explicify_hydrogens', 'implicify_hydrogens', 'clean_isotopes', 'remove_coordinate_bonds', 'neutralize',
           'standardize', 'fix_resonance', 'kekule', 'standardize_charges', 'canonicalize']
@@ -414,6 +414,38 @@ class Sim:
         if order == 8:
             self.probes['order8_added'] += 1
         return hi, {n, m}
+
+    @staticmethod
+    def _set_xy(mol, n, op):
+        how = op.get('how', 0) % 3
+        x, y = float(op.get('x', 0)), float(op.get('y', 0))
+        a = mol.atom(n)
+        if how == 0:
+            a.x = x
+            return (x, a.y)
+        if how == 1:
+            a.y = y
+            return (a.x, y)
+        a.xy = (x, y)
+        return (x, y)
+
+    def op_set_xy(self, op, tx=None):
+        hi = self._h(op)
+        if hi is None:
+            return None
+        h = self.handles[hi]
+        mol, model = h.mol, (tx if tx is not None else h.model)
+        n = self._atom(model, op['a'])
+        if n is None:
+            return None
+        box = []
+        if tx is not None:
+            model.xy[n] = self._set_xy(mol, n, op)
+        else:
+            self._do('set_xy', True, lambda: box.append(self._set_xy(mol, n, op)))
+            model.xy[n] = box[0]
+        self.probes['set_xy'] += 1
+        return hi, set()
 
     def op_del_atom(self, op, tx=None):
         hi = self._h(op)
@@ -812,7 +844,7 @@ class Sim:
             f()
             self._inner_silent = True   # did not raise: state unknown
             return set()
-        if k in ('add_atom', 'add_bond', 'del_atom', 'del_bond'):
+        if k in ('add_atom', 'add_bond', 'del_atom', 'del_bond', 'set_xy'):
             res = getattr(self, 'op_' + k)(inner, tx=txm)
             self.probes['tx_' + k] += 1
             return set() if res is None else (res[1] or set())
@@ -956,6 +988,8 @@ def gen_inner(sim, rng, model):
     if r < 0.12:
         return {'op': 'obs', 'names': [rng.randrange(len(GRAPH_ONLY)) for _ in range(rng.choice([1, 2, 4]))]}
     r = rng.random()
+    if r < 0.08:
+        return {'op': 'set_xy', 'a': _rank(rng), 'x': rng.randrange(-5, 6), 'y': rng.randrange(-5, 6), 'how': rng.randrange(3)}
     if r < 0.25:
         return {'op': 'set_charge', 'a': _rank(rng), 'v': rng.choice([-2, -1, -1, 0, 1, 1, 2])}
     if r < 0.40:
@@ -1016,6 +1050,8 @@ def gen_op(sim, rng, frng, cfg):
         op['names'] = [rng.randrange(len(OBSERVERS)) for _ in range(rng.choice([1, 1, 2, 3, 5, 8]))]
     elif kind == 'add_atom':
         op.update(gen_add_atom(rng))
+    elif kind == 'set_xy':
+        op.update(a=_rank(rng), x=rng.randrange(-5, 6), y=rng.randrange(-5, 6), how=rng.randrange(3))
     elif kind == 'add_bond':
         op.update(gen_add_bond(rng, model))
     elif kind == 'del_atom':
